@@ -176,6 +176,9 @@ def main(argv=None) -> int:
         # a failed precondition of a callee is assumed afterwards: what follows it may then be contradictory, which is a
         # consequence of the reported failure and not a vacuous contract
         pre_failed = any(o["kind"] == "pre" and not o["ok"] and o["result"] == "sat" for o in r["obligations"])
+        # a loop head (or the entry) is reached on several paths; a path that the quick feasibility filter could not prune within
+        # its budget may be infeasible, and its cover then fails harmlessly: the guard is violated only if NO path reaches the point
+        reachable = {o["name"] for o in r["obligations"] if o["kind"] == "cover" and o["result"] != "unsat"}
         for o in r["obligations"]:
             n_ob += 1
             b = by_backend.setdefault(o["backend"] or "z3-api", {"count": 0, "seconds": 0.0})
@@ -192,7 +195,7 @@ def main(argv=None) -> int:
                     samples.append({"obligation": o["name"], "clause": o["info"][:200], "verdict": "unsat (discharged)", "backend": o["backend"]})
                 continue
             if o["kind"] == "cover":
-                if o["result"] == "unsat" and pre_failed:
+                if o["result"] == "unsat" and (pre_failed or o["name"] in reachable):
                     n_ob -= 1
                 elif o["result"] == "unsat":
                     broken.append(f"vacuous: {o['name']} (the assumptions at this point are contradictory)")
